@@ -69,12 +69,14 @@ CLAIMS = {
         note=ASSUME + "Assumed: regex semantics, C01.tree. Not decided: language equality of concrete expression pairs.",
         ref="4 C07"),
     "C09": dict(
-        technique="static analysis: THIR case-table evaluation (truth tables, verdict functions, sequencer on all child lists up to a bound)",
-        text="NARROW: the soundness of the exhaustiveness fold is not decidable in this family and is known to be violated "
-             "(`**/{a}`); decided are the finite parts a false `always` can come from: trivalent tables, verdict functions, "
-             "admission predicate and maximal-suffix selection on every child list up to length 3 (quick) / 4 (thorough), "
-             "repetition guard, discarded-terms branch, identical delegation in Glob and Any.",
-        note=ASSUME + "The central behavioural law is NOT decided. Assumed: C10 tables.",
+        technique="static analysis: the exhaustiveness verdict (THIR evaluation of the whole fold) compared with the language of the emitted program (regex automaton) on a catalogue of ~6 500 / ~30 000 small expressions; THIR case tables for the finite parts",
+        text="On every buildable expression of a catalogue (one alternation or repetition with sub-expressions of up to two "
+             "segments, in every context of up to two / three segments) the verdict `always` implies that the program "
+             "encode::compile emits for the same tree matches every canonical path beneath a matched canonical path - two "
+             "artefacts computed from the source are compared, nothing is run. Also: trivalent tables, verdict functions, "
+             "admission predicate, suffix selection free of bounded leaves, repetition guard, discarded-terms branch, "
+             "identical delegation in Glob and Any, range operations never lose an upper bound.",
+        note=ASSUME + "Soundness outside the catalogue is not decided. Found and repaired with it: `**/{a}` family (89e1cfe); known: optional repetitions (`<*/>`, pinned by an existing test).",
         ref="4 C09"),
     "C10": dict(
         technique="static analysis: THIR case-table evaluation against a model-derived reference (termination algebra, finalisation, leaf terms, fold operators, variance shapes)",
@@ -148,12 +150,13 @@ CLAIMS = {
         note=ASSUME + "Assumed: walkdir semantics; std::path semantics as modelled in sa/rules/pathmodel.py. Found and repaired with it: rooted globs stopped descending (19caab6), `..` prefixes yielded nothing (821abd1); known: `./` prefixes.",
         ref="4 C02"),
     "C03": dict(
-        technique="static analysis: THIR case-table evaluation of the negation's partition, program construction and verdict function + shared feed tables",
-        text="The equivalence with per-entry filtering needs the soundness of `always exhaustive` (C09, not decided). Decided: "
-             "alternatives go to the exhaustive side only when `always`, the two sides reach the program's slots unswapped, "
-             "residue() over 4 variants x match outcomes, candidate = root-relative path, Not::feed applies the verdict once to "
-             "filtrate and residue alike, into_non_trivial / into_alternatives keep every alternative.",
-        note=ASSUME + "Assumed: C09 soundness (known to be violated by `**/{a}`).",
+        technique="static analysis: exhaustiveness verdict vs. program language on the C09 catalogue + THIR case-table evaluation of the negation's partition, program construction and verdict function + shared feed tables",
+        text="Discarding a tree equals per-entry filtering iff `always exhaustive` is sound: decided on the C09 catalogue "
+             "(shared computation). For all inputs: alternatives go to the exhaustive side only when `always`, the two sides "
+             "reach the program's slots unswapped, residue() over 4 variants x match outcomes, candidate = root-relative "
+             "path, Not::feed applies the verdict once to filtrate and residue alike, into_non_trivial / into_alternatives "
+             "keep every alternative.",
+        note=ASSUME + "Soundness of the verdict outside the catalogue is not decided; known: optional repetitions.",
         ref="4 C03"),
     "C08": dict(
         technique="static analysis: THIR evaluation of Tokenized::partition on abstract token lists with concrete byte spans + table of invariant_text_prefix",
